@@ -25,7 +25,7 @@ def nontrivial(rec: dict, run: dict) -> bool:
 
 
 def run(tier: str, seed: int) -> int:
-    return S.check(PROP, tier, seed, nontrivial, RULE)
+    return S.check(PROP, tier, seed, nontrivial, RULE, refinement=[("SkipsAreCounted", ("size",), "F11")])
 
 
 def replay(path: str, tier: str, seed: int) -> int:
